@@ -307,3 +307,115 @@ def vc_getattr(H):
     H.run_paths(fuc, 'name=__array_priority__', body)
 
 
+
+
+def vc_indexing(H):
+    """C16: mv[item] indexes every coefficient with the same item (keys untouched); mv[idx] = v assigns exactly the
+    addressed entries of every coefficient, pairing coefficients in order; nothing else is written."""
+    g = H.fn(MV, 'MultiVector.__getitem__')
+    s_ = H.fn(MV, 'MultiVector.__setitem__')
+    MVc = sym('MultiVector')
+    for branch in ('list', 'tuple', 'ndarray'):
+        for item_is_tuple in (False, True):
+            def body(ctx, branch=branch, item_is_tuple=item_is_tuple):
+                vals = [sym(f'v{i}') for i in range(3)]
+                container = list(vals) if branch == 'list' else tuple(vals) if branch == 'tuple' else sym('ndarray-values')
+                keys = sym('keys')
+                alg = sym('algebra')
+                fk = Rec('attr', sym('cls'), 'fromkeysvalues')
+                cls = sym('cls', attrs={'fromkeysvalues': fk})
+                me = sym('self', attrs={'algebra': alg, '__class__': cls,
+                                        'values': sym('values()', callable_result=lambda i, m, a, k: container),
+                                        'keys': sym('keys()', callable_result=lambda i, m, a, k: keys)})
+                item = (sym('i0'), sym('i1')) if item_is_tuple else sym('i0')
+                interp = Interp(ctx, source_name=MV)
+                r = H.closure(interp, g, {'slice': slice})(me, item)
+                it = item if item_is_tuple else (item,)
+                if branch == 'ndarray':
+                    exp_vals = Rec('item', container, (slice(None),) + tuple(it))
+                else:
+                    exp_vals = type(container)(Rec('item', v, it) for v in vals)
+                ok = (isinstance(r, Rec) and r.kind == 'call' and same(r.parts[0], fk) and same(tuple(r.parts[1]), (alg,))
+                      and same(r.parts[2].get('keys'), keys) and same(r.parts[2].get('values'), exp_vals)
+                      and (branch == 'ndarray' or type(r.parts[2].get('values')) is type(container)))
+                ctx.oblige('getitem: same keys; every coefficient indexed with the same item, order kept', bool(ok),
+                           meta={'got': repr(r), 'expected_values': repr(exp_vals)})
+                ctx.oblige('getitem: nothing is written', not [e for e in ctx.events if e[0] in ('setitem', 'setattr')])
+                return r
+            H.run_paths(g, f'{branch},item_tuple={item_is_tuple}', body)
+    for branch in ('list', 'ndarray'):
+        for src in ('sequence', 'multivector', 'multivector-other-keys'):
+            def body(ctx, branch=branch, src=src):
+                vals = [sym(f'v{i}') for i in range(3)]
+                container = list(vals) if branch == 'list' else sym('ndarray-values')
+                keys = sym('keys')
+                me = sym('self', attrs={'values': sym('values()', callable_result=lambda i, m, a, k: container),
+                                        'keys': sym('keys()', callable_result=lambda i, m, a, k: keys)}, isinstance_of=('MultiVector',))
+                new = [sym(f'w{i}') for i in range(3)]
+                newc = list(new) if branch == 'list' else sym('new-ndarray')
+                if src == 'sequence':
+                    arg = newc
+                else:
+                    okeys = keys if src == 'multivector' else sym('other-keys')
+                    arg = sym('other', attrs={'values': sym('o.values()', callable_result=lambda i, m, a, k: newc),
+                                              'keys': sym('o.keys()', callable_result=lambda i, m, a, k: okeys)}, isinstance_of=('MultiVector',))
+                idx = sym('idx')
+                interp = Interp(ctx, source_name=MV)
+                try:
+                    r = H.closure(interp, s_, {'MultiVector': MVc, 'slice': slice})(me, idx, arg)
+                    raised = None
+                except ValueError as e:
+                    r, raised = None, e
+                stores = [e for e in ctx.events if e[0] == 'setitem']
+                if src == 'multivector-other-keys':
+                    ctx.oblige('setitem: a multivector with different keys is rejected and nothing is written', raised is not None and not stores)
+                    if raised:
+                        raise raised
+                    return r
+                if raised:
+                    ctx.oblige('setitem: does not raise', False)
+                    raise raised
+                if branch == 'list':
+                    ok = len(stores) == 3 and all(st[1] is vals[i] and same(st[2], (idx,)) and same(st[3], new[i]) for i, st in enumerate(stores))
+                else:
+                    ok = len(stores) == 1 and stores[0][1] is container and same(stores[0][2], (slice(None), idx)) and same(stores[0][3], newc)
+                ctx.oblige('setitem: exactly the addressed entries of every coefficient are assigned, coefficients paired in order', bool(ok),
+                           meta={'stores': repr([(s[1], s[2], s[3]) for s in stores])})
+                ctx.oblige('setitem: no attribute is written', not [e for e in ctx.events if e[0] == 'setattr'])
+                return r
+            H.run_paths(s_, f'{branch},from={src}', body)
+
+
+def vc_trivial_accessors(H):
+    """keys()/values()/items()/fromkeysvalues: the representation is exactly the two sequences given (C08, C15)."""
+    for meth, attr in (('keys', '_keys'), ('values', '_values')):
+        fuc = H.fn(MV, f'MultiVector.{meth}')
+
+        def body(ctx, meth=meth, attr=attr, fuc=fuc):
+            me = sym('self')
+            r = H.closure(Interp(ctx, source_name=MV), fuc)(me)
+            ctx.oblige(f'post: {meth}() is self.{attr}', same(r, Rec('attr', me, attr)))
+            return r
+        H.run_paths(fuc, '', body)
+    fuc = H.fn(MV, 'MultiVector.items')
+
+    def body(ctx):
+        ks, vs = [sym('k0'), sym('k1')], [sym('v0'), sym('v1')]
+        me = sym('self', attrs={'_keys': tuple(ks), '_values': list(vs)})
+        r = H.closure(Interp(ctx, source_name=MV), fuc)(me)
+        ctx.oblige('post: items() pairs the i-th key with the i-th value', same(list(r), [(ks[0], vs[0]), (ks[1], vs[1])]))
+        return r
+    H.run_paths(fuc, '', body)
+    fuc2 = H.fn(MV, 'MultiVector.fromkeysvalues')
+
+    def body2(ctx):
+        new = sym('new-object')
+        obj = sym('object', attrs={'__new__': sym('object.__new__', callable_result=lambda i, m, a, k: new)})
+        cls, alg, keys, vals = sym('cls'), sym('algebra'), sym('keys'), sym('values')
+        r = H.closure(Interp(ctx, source_name=MV), fuc2, {'object': obj})(cls, alg, keys, vals)
+        sets = {e[2]: e[3] for e in ctx.events if e[0] == 'setattr' and e[1] is new}
+        ctx.oblige('post: a fresh object with algebra, _keys, _values exactly as given (no copy, no reorder) and nothing else',
+                   r is new and set(sets) == {'algebra', '_keys', '_values'} and sets['algebra'] is alg
+                   and sets['_keys'] is keys and sets['_values'] is vals)
+        return r
+    H.run_paths(fuc2, '', body2)
